@@ -10,11 +10,15 @@
 //   smooth.step    level steps up/down: dB gain moves monotonically toward the static target, 10%->90% in fs*t
 //   smooth.silence burst | exact zeros for k release times | quiet tone (1 call / 3 calls): first-order release through the silence
 //   gate.silence   the same history for the NoiseGate: hold, then closing with the attack time through zeros and tone
+//   stream         140 000 samples per processor (Agc real and complex) in one call and in frames of 1000, every sample against
+//                  the reference recursion; holds / silences / averaging windows span samples 65 536 and 131 072
+//   gate.bursts    bursts shorter than the release time with hold > 0 against the reference recursion
 //   gate.step      NoiseGate open/close history: hold of floor(hold*fs) samples, time constants, monotone
 //   gate.range     NoiseGate on signal letters: gain in [0,1], monotone toward the decision, out = x*gain
 //   agc.settle     Agc on constant-envelope letters: settles to target power within 1 %, gain <= max_gain
 //   agc.bound      Agc on silence / level-switch letters: gain finite and <= max_gain on every sample
 #include "vf.hpp"
+#include <type_traits>
 
 using namespace vf;
 using namespace dsplib;
@@ -145,19 +149,22 @@ struct CurveFail {
 };
 
 template<class Proc>
-static void static_curve(Ctx& ctx, const char* site, Proc& proc, bool limiter, double T, int R, double W, int sign) {
-    // level grid in centi-dB: every 0.5 dB in [-100,20], every 0.01 dB within +-0.1 dB of T-W/2, T, T+W/2
+static void static_curve(Ctx& ctx, const char* site, Proc& proc, bool limiter, double T, int R, double W, int sign, bool deep = false) {
+    // level grid in milli-dB: every 0.5 dB in [-100,20], every 0.01 dB within +-0.1 dB of T-W/2, T, T+W/2
+    // (deep: additionally every 0.001 dB within +-0.05 dB of these breakpoints)
     std::set<long long> g;
-    for (long long c = -10000; c <= 2000; c += 50) g.insert(c);
+    for (long long c = -100000; c <= 20000; c += 500) g.insert(c);
     for (double b : {T - W / 2, T, T + W / 2}) {
-        long long c0 = llround(b * 100);
-        for (int j = -10; j <= 10; ++j) g.insert(c0 + j);
+        long long c0 = llround(b * 1000);
+        for (int j = -10; j <= 10; ++j) g.insert(c0 + 10 * j);
+        if (deep)
+            for (int j = -50; j <= 50; ++j) g.insert(c0 + j);
     }
     std::vector<long long> lv(g.begin(), g.end());
     if (sign < 0) std::reverse(lv.begin(), lv.end());   // descending order: the law must be memoryless
     const int n = (int)lv.size();
     std::vector<double> x(n), out(n), gain(n);
-    for (int i = 0; i < n; ++i) x[i] = sign * (double)powl(10.0L, (ld)lv[i] / 2000.0L);
+    for (int i = 0; i < n; ++i) x[i] = sign * (double)powl(10.0L, (ld)lv[i] / 20000.0L);
     {
         // the sweep with an exact 0.0 after every 5th level: zero samples are below every threshold (unity gain,
         // zero output) and must not disturb the law for the following sample
@@ -184,7 +191,7 @@ static void static_curve(Ctx& ctx, const char* site, Proc& proc, bool limiter, d
     // regions are named by the nominal grid level (exact centi-dB), not by the level of the rounded sample
     auto region = [&](ld L) { return (W > 0 && L > lo && L < hi) ? "knee" : (L >= hi ? "above" : "below"); };
     std::vector<ld> nom(n);
-    for (int i = 0; i < n; ++i) nom[i] = (ld)lv[i] / 100.0L;
+    for (int i = 0; i < n; ++i) nom[i] = (ld)lv[i] / 1000.0L;
     std::set<std::string> reported;
     std::map<std::string, int> counts;
     auto report = [&](const std::string& sub, const std::string& reg, const std::string& obs, const std::string& exp, ld L) {
@@ -385,15 +392,20 @@ static void check_phase(Ctx& ctx, const char* site, const std::vector<ld>& g, ld
 }
 
 template<class Proc>
-static void smooth_step(Ctx& ctx, const char* site, Proc& proc, bool limiter, double T, int R, double W, int fs, double ta, double tr) {
+static void smooth_step(Ctx& ctx, const char* site, Proc& proc, bool limiter, double T, int R, double W, int fs, double ta, double tr, bool deep = false) {
     // levels outside the knee so that the target does not depend on the knee formula
-    const double Llow = T - W / 2 - 6, Lh1 = std::min(20.0, T + W / 2 + 24), Lh2 = T + W / 2 + 8;
+    const double Llow = T - W / 2 - 6, Lh1 = std::min(20.0, T + W / 2 + 24), Lh2 = T + W / 2 + 8, Lh3 = std::min(20.0, T + W / 2 + 16);
     const int NA = (int)std::ceil(1.3 * fs * ta) + 16, NR = (int)std::ceil(1.3 * fs * tr) + 16;
     struct Seg {
         double L;
         int n;
     };
-    const Seg segs[] = {{Llow, 16}, {Lh1, NA}, {Lh2, NR}, {Lh1, NA}, {Llow, NR}};
+    std::vector<Seg> segs = {{Llow, 16}, {Lh1, NA}, {Lh2, NR}, {Lh1, NA}, {Llow, NR}};
+    if (deep) {   // three more phases: attack from unity to a middle level, release to a lower level above the knee, release to unity
+        segs.push_back({Lh3, NA});
+        segs.push_back({Lh2, NR});
+        segs.push_back({Llow, NR});
+    }
     std::vector<double> x, out, gain;
     std::vector<int> start;
     for (auto& s : segs) {
@@ -422,9 +434,9 @@ static void smooth_step(Ctx& ctx, const char* site, Proc& proc, bool limiter, do
         const ld Lin = level_db(std::pow(10.0, L / 20.0));
         return static_out(limiter, T, R, W, Lin) - Lin;
     };
-    const ld t1 = tgt(Lh1), t2 = tgt(Lh2);
-    const ld targets[] = {0, t1, t2, t1, 0};
-    for (int s = 1; s < 5; ++s) {
+    const ld t1 = tgt(Lh1), t2 = tgt(Lh2), t3 = tgt(Lh3);
+    const ld targets[] = {0, t1, t2, t1, 0, t3, t2, 0};
+    for (int s = 1; s < (int)segs.size(); ++s) {
         const ld g0 = g[start[s] - 1];
         Phase ph{start[s], start[s + 1], targets[s], targets[s] < g0 ? ta : tr};
         check_phase(ctx, site, g, g0, ph, fs, limiter ? "limiter" : "compressor", s);
@@ -664,6 +676,233 @@ static void gate_silence(Ctx& ctx, int fs, double thr, double ta, double tr, dou
     ctx.nontrivial();
 }
 
+// documented gate law in long double: decision gc = (|x| >= threshold); gc above the gain: hold counter reset, one-pole rise with
+// the release coefficient; gc below the gain: the gain is frozen for floor(hold*fs) samples, then one-pole fall with the attack
+// coefficient.  Only used on histories in which a hold is never interrupted while the gain is exactly 1 (see assumptions).
+static std::vector<ld> gate_ref(const std::vector<double>& x, int fs, double thr, double ta, double tr, double th) {
+    const ld tl = powl(10.0L, (ld)thr / 20.0L);
+    const ld wA = ta > 0 ? expl(-logl(9.0L) / ((ld)fs * (ld)ta)) : 0.0L, wR = tr > 0 ? expl(-logl(9.0L) / ((ld)fs * (ld)tr)) : 0.0L;
+    const long long tH = (long long)std::floor(th * fs);
+    std::vector<ld> g(x.size());
+    ld lg = 0;
+    long long cA = 0;
+    for (size_t i = 0; i < x.size(); ++i) {
+        const ld gc = fabsl((ld)x[i]) >= tl ? 1.0L : 0.0L;
+        if (gc < lg) {
+            if (cA < tH) ++cA;
+            else lg = wA * lg + (1 - wA) * gc;
+        } else if (gc > lg) {
+            cA = 0;
+            lg = wR * lg + (1 - wR) * gc;
+        }
+        g[i] = lg;
+    }
+    return g;
+}
+static bool gate_vs_ref(Ctx& ctx, const std::vector<double>& x, const std::vector<double>& gain, int fs, double thr, double ta, double tr, double th, const char* what) {
+    const std::vector<ld> r = gate_ref(x, fs, thr, ta, tr, th);
+    for (size_t i = 0; i < x.size(); ++i) {
+        const ld d = fabsl((ld)gain[i] - r[i]);
+        ctx.worst("gate vs reference recursion |gain - ref|", (double)d);
+        if (!(d <= 1e-12L)) {
+            ctx.fail("NoiseGate.process", fmt("%s: gain[%zu] = %.17g, documented hold/attack/release recursion gives %.17Lg", what, i, gain[i], r[i]), "|difference| <= 1e-12",
+                     P().kv("sub", "reference").kv("i", (long long)i));
+            return false;
+        }
+    }
+    return true;
+}
+
+// bursts above the threshold shorter than the release time (the gate opens only partly) with hold > 0, separated by gaps
+// shorter and longer than the hold; every sample against the reference recursion
+static void gate_bursts(Ctx& ctx, int fs, double thr, double ta, double tr, double th, double bfrac) {
+    const char* site = "NoiseGate.process";
+    const long long tH = (long long)std::floor(th * fs);
+    if (tH != (long long)floorl((ld)th * (ld)fs)) {
+        ctx.note("gate.bursts: hold count ambiguous in double, configuration skipped");
+        return;
+    }
+    NoiseGate gate(fs, thr, ta, tr, th);
+    const double tl = std::pow(10.0, thr / 20.0);
+    const int nb = std::max(1, (int)(bfrac * fs * tr)), gshort = std::max(1, (int)(tH / 2)), glong = (int)(2 * tH + 3 * fs * ta + 8);
+    std::vector<double> x, out, gain;
+    for (int i = 0; i < 7; ++i) x.push_back(0.4 * tl);
+    for (int b = 0; b < 6; ++b) {
+        for (int i = 0; i < nb; ++i) x.push_back(((i & 1) ? -1.0 : 1.0) * (1.5 + 0.1 * b) * tl);
+        const int gap = (b % 3 == 1) ? gshort : glong;
+        for (int i = 0; i < gap; ++i) x.push_back((b & 1) ? 0.0 : 0.3 * tl * lcg_val(25, i));
+    }
+    if (!run_framed(ctx, site, gate, x, out, gain)) return;
+    if (!check_range(ctx, site, x, out, gain)) return;
+    double gmax = 0;
+    for (double v : gain) gmax = std::max(gmax, v);
+    if (!(gmax < 1.0)) {
+        ctx.note("gate.bursts: gate opened fully, not judged against the reference");
+        return;
+    }
+    if (!gate_vs_ref(ctx, x, gain, fs, thr, ta, tr, th, "short bursts")) return;
+    ctx.note("gate.bursts histories compared");
+    ctx.nontrivial();
+}
+
+// ---------------------------------------------------------------------------------------------- long streams
+static bool agc_bound(Ctx& ctx, const std::vector<double>& gain, double max_gain_db, const std::vector<double>* xin);
+// run a processor over x in one call (frame = 0) or in frames
+template<class Proc>
+static bool run_frames(Ctx& ctx, const char* site, Proc& p, const std::vector<double>& x, int frame, std::vector<double>& out, std::vector<double>& gain) {
+    std::vector<int> cuts;
+    if (frame > 0)
+        for (int c = frame; c < (int)x.size(); c += frame) cuts.push_back(c);
+    return run_cuts(ctx, site, p, x, cuts, frame > 0 ? 2 : 1, out, gain);
+}
+
+// compressor / limiter reference: documented static gain of every sample (level of |x| + eps) smoothed by the one-pole
+// attack / release recursion in the dB domain, long double
+static std::vector<ld> dyn_ref(const std::vector<double>& x, bool limiter, double T, int R, double W, int fs, double ta, double tr) {
+    const ld wA = ta > 0 ? expl(-logl(9.0L) / ((ld)fs * (ld)ta)) : 0.0L, wR = tr > 0 ? expl(-logl(9.0L) / ((ld)fs * (ld)tr)) : 0.0L;
+    std::vector<ld> g(x.size());
+    ld gs = 0;
+    for (size_t i = 0; i < x.size(); ++i) {
+        const ld L = 20.0L * log10l(fabsl((ld)x[i]) + (ld)EPS);
+        const ld gc = static_out(limiter, T, R, W, L) - L;
+        gs = gc <= gs ? wA * gs + (1 - wA) * gc : wR * gs + (1 - wR) * gc;
+        g[i] = gs;
+    }
+    return g;
+}
+
+// stream letter for the dynamics processors: level-modulated noise with loud / quiet / exact-zero stretches placed so that
+// releases, holds and silences span the samples 4096, 65 536 and 131 072
+static std::vector<double> stream_letter(int n) {
+    std::vector<double> x(n);
+    for (int i = 0; i < n; ++i) {
+        const int blk = i / 2500;
+        double a;
+        switch (blk % 4) {
+        case 0: a = 2.0; break;
+        case 1: a = 0.05; break;
+        case 2: a = 0.5; break;
+        default: a = (blk % 8 == 3) ? 0.0 : 0.002;
+        }
+        if (i >= 64000 && i < 67000) a = (i < 65000) ? 3.0 : 0.0;       // burst, then silence across 65 536
+        if (i >= 130000 && i < 133000) a = (i < 131000) ? 3.0 : 0.001;   // burst, then quiet across 131 072
+        x[i] = a * (0.3 + 0.7 * std::fabs(lcg_val(26, i))) * (lcg_val(27, i) < 0 ? -1 : 1);
+    }
+    return x;
+}
+
+template<class Proc>
+static void dyn_stream(Ctx& ctx, const char* site, Proc& proc, bool limiter, double T, int R, double W, int fs, double ta, double tr, int frame, const std::vector<double>& x) {
+    std::vector<double> out, gain;
+    if (!run_frames(ctx, site, proc, x, frame, out, gain)) return;
+    if (!check_range(ctx, site, x, out, gain)) return;
+    const std::vector<ld> r = dyn_ref(x, limiter, T, R, W, fs, ta, tr);
+    const double ceil_ = std::pow(10.0, T / 20.0);
+    for (size_t i = 0; i < x.size(); ++i) {
+        const ld gd = gain[i] > 0 ? 20.0L * log10l((ld)gain[i]) : -1e30L;
+        const ld d = fabsl(gd - r[i]);
+        ctx.worst("stream: compressor/limiter |dB gain - reference recursion|", (double)d);
+        if (!(d <= 1e-9L)) {
+            ctx.fail(site, fmt("sample %zu of the stream: gain %.12Lf dB, reference recursion %.12Lf dB", i, gd, r[i]), "|difference| <= 1e-9 dB", P().kv("sub", "reference").kv("i", (long long)i));
+            return;
+        }
+        if (limiter && ta == 0 && !(std::fabs(out[i]) <= ceil_ * (1 + 1e-9))) {
+            ctx.fail(site, fmt("|out[%zu]| = %.17g", i, std::fabs(out[i])), fmt("<= 10^(T/20) = %.17g", ceil_), P().kv("sub", "ceiling").kv("i", (long long)i));
+            return;
+        }
+    }
+    ctx.note("stream samples compared (compressor/limiter)", (long long)x.size());
+    ctx.nontrivial();
+}
+
+static void gate_stream(Ctx& ctx, int frame, int n) {
+    const char* site = "NoiseGate.process";
+    const int fs = 8000;
+    const double thr = -20, ta = 0.02, tr = 0.01, th = 0.125;   // hold = 1000 samples
+    NoiseGate gate(fs, thr, ta, tr, th);
+    const double tl = std::pow(10.0, thr / 20.0);
+    std::vector<double> x(n), out, gain;
+    for (int i = 0; i < n; ++i) {
+        // open from 1000, close at 65 000 (hold 65 000..66 000 spans 65 536), open 100 000, close 130 500 (hold spans 131 072)
+        const bool loud = (i >= 1000 && i < 65000) || (i >= 100000 && i < 130500);
+        x[i] = (loud ? 2.0 * tl : 0.3 * tl * lcg_val(28, i)) * ((i / 7) & 1 ? -1 : 1);
+    }
+    if (!run_frames(ctx, site, gate, x, frame, out, gain)) return;
+    if (!check_range(ctx, site, x, out, gain)) return;
+    if (!gate_vs_ref(ctx, x, gain, fs, thr, ta, tr, th, "stream")) return;
+    // the hold itself, from the outputs alone
+    for (int c : {65000, 130500}) {
+        int held = 0;
+        while (c + held < n && gain[c + held] == gain[c - 1]) ++held;
+        if (held != 1000) {
+            ctx.fail(site, fmt("gain frozen for %d samples after the level fell below the threshold at sample %d", held, c), "floor(hold*fs) = 1000", P().kv("sub", "hold").kv("i", c));
+            return;
+        }
+    }
+    ctx.note("stream samples compared (gate)", n);
+    ctx.nontrivial();
+}
+
+// Agc stream: constant-envelope levels switching at 65 000 and 131 000 so that the 1000-sample averaging window spans 65 536 and
+// 131 072 during a transient; reference = exact sliding-window mean power + the documented log-domain loop, long double
+template<class T>
+static void agc_stream(Ctx& ctx, int frame, int n) {
+    const double target = 1.0, maxg = 60.0, trise = 0.01, tfall = 0.01;
+    const int avg = 1000;
+    Agc agc(target, maxg, avg, trise, tfall);
+    std::vector<T> x(n);
+    std::vector<ld> p2(n);
+    for (int i = 0; i < n; ++i) {
+        // 1e-4 first (required gain 80 dB > max_gain: clamp episode), then steps up by 40 dB and down by at most 20 dB (a larger drop
+        // leaves a rounding residue of the library's recurrent window sum above the 1e-9 tolerance; that residue is not judged here)
+        const double A = i < 2000 ? 1e-4 : i < 30000 ? 0.01 : i < 65000 ? 1.0 : i < 100000 ? 0.1 : i < 131000 ? 1.0 : 0.1;
+        if constexpr (std::is_same<T, cmplx_t>::value) x[i] = cmplx_t(A * std::cos(0.7 * i), A * std::sin(0.7 * i));
+        else x[i] = lcg_val(29, i) < 0 ? -A : A;
+        p2[i] = (ld)abs2(x[i]);
+    }
+    std::vector<double> gain(n), pw(n);
+    for (int pos = 0; pos < n;) {
+        const int len = frame > 0 ? std::min(frame, n - pos) : n;
+        base_array<T> fr(len);
+        for (int i = 0; i < len; ++i) fr[i] = x[pos + i];
+        auto r = agc.process(fr);
+        if (r.out.size() != len || r.gain.size() != len) {
+            ctx.fail("Agc.process", fmt("result sizes out=%d gain=%d", r.out.size(), r.gain.size()), fmt("%d", len));
+            return;
+        }
+        for (int i = 0; i < len; ++i) {
+            gain[pos + i] = r.gain[i];
+            const T e = x[pos + i] * r.gain[i];
+            if (std::memcmp(&e, &r.out[i], sizeof(T)) != 0 && !(std::sqrt(abs2(r.out[i] - e)) <= 4 * EPS * std::sqrt(abs2(e)))) {
+                ctx.fail("Agc.process", fmt("out[%d] is not x*gain", pos + i), "out = x*gain", P().kv("sub", "product").kv("i", pos + i));
+                return;
+            }
+        }
+        pos += len;
+    }
+    if (!agc_bound(ctx, gain, maxg, nullptr)) return;
+    const ld tgt = logl((ld)target), mg = logl(powl(10.0L, (ld)maxg / 20.0L));
+    ld g = 1.0L, acc = 0;
+    for (int i = 0; i < n; ++i) {
+        if (i % avg == 0) {   // exact restart of the window sum
+            acc = 0;
+            for (int j = std::max(0, i - avg + 1); j < i; ++j) acc += p2[j];
+        } else if (i >= avg) acc -= p2[i - avg];
+        acc += p2[i];
+        const ld err = tgt - (logl(acc / avg + (ld)EPS) + 2 * g);
+        g += (err > 1 ? (ld)trise : (ld)tfall) * err;
+        if (g > mg) g = mg;
+        const ld rel = fabsl((ld)gain[i] / expl(g) - 1);
+        ctx.worst("stream: agc |gain / reference recursion - 1|", (double)rel);
+        if (!(rel <= 1e-9L)) {
+            ctx.fail("Agc.process", fmt("sample %d of the stream: gain %.17g, reference recursion %.17Lg", i, gain[i], expl(g)), "relative difference <= 1e-9", P().kv("sub", "reference").kv("i", i));
+            return;
+        }
+    }
+    ctx.note("stream samples compared (agc)", n);
+    ctx.nontrivial();
+}
+
 static void gate_range(Ctx& ctx, int fs, double thr, double ta, double tr, double th, int let, int n) {
     const char* site = "NoiseGate.process";
     NoiseGate gate(fs, thr, ta, tr, th);
@@ -720,7 +959,7 @@ static bool agc_run(Ctx& ctx, Agc& agc, const std::vector<T>& x, std::vector<dou
     return true;
 }
 
-static bool agc_bound(Ctx& ctx, const std::vector<double>& gain, double max_gain_db, const std::vector<double>* xin = nullptr) {
+static bool agc_bound(Ctx& ctx, const std::vector<double>& gain, double max_gain_db, const std::vector<double>* xin) {
     const double lim = std::pow(10.0, max_gain_db / 20.0) * (1 + 1e-12);
     for (size_t i = 0; i < gain.size(); ++i)
         if (!(gain[i] <= lim && gain[i] >= 0)) {
@@ -747,7 +986,7 @@ static void agc_settle(Ctx& ctx, double target, double level_db_in, int avg, dou
         ok = agc_run(ctx, agc, x, pw, gain);
     }
     if (!ok) return;
-    if (!agc_bound(ctx, gain, maxg)) return;
+    if (!agc_bound(ctx, gain, maxg, nullptr)) return;
     const double req_db = 10.0 * std::log10(target / (A * A));   // required amplitude gain in dB (20 log10 g)
     if (req_db < maxg - 0.01) {
         ld acc = 0;
@@ -807,15 +1046,65 @@ int main(int argc, char** argv) {
 
     const double Ts[] = {-50, -30, -10, -3, 0};
     const std::vector<int> Rs = TH ? std::vector<int>{1, 2, 3, 5, 10, 50} : std::vector<int>{1, 2, 5, 50};
-    const double Ws[] = {0, 1, 10, 20};
+    const std::vector<double> Ws = TH ? std::vector<double>{0, 1, 3, 10, 20} : std::vector<double>{0, 1, 10, 20};
     const std::vector<int> FSs = TH ? std::vector<int>{8000, 44100, 192000} : std::vector<int>{8000, 192000};
+    // dense grids of the thorough tier (static law, exact breakpoints)
+    const std::vector<double> TsD = TH ? std::vector<double>{-50, -40, -30, -20, -10, -6, -3, -1, 0} : std::vector<double>{-50, -30, -10, -3, 0};
+    const std::vector<int> RsD = TH ? std::vector<int>{1, 2, 3, 4, 5, 8, 10, 20, 50} : Rs;
+    const std::vector<double> WsD = TH ? std::vector<double>{0, 0.5, 1, 3, 6, 10, 15, 20} : Ws;
+
+    // ---- long streams (both tiers): 140 000 samples in one call and in frames of 1000 (thorough also 4097 and 65 536), every
+    // sample against the reference recursion; holds, silences and averaging windows span samples 65 536 and 131 072
+    {
+        const int NSTR = 140000;
+        const std::vector<int> frames = TH ? std::vector<int>{0, 1000, 4097, 65536} : std::vector<int>{0, 1000};
+        std::vector<double> sx;
+        for (int frame : frames) {
+            for (int kind = 0; kind < 3; ++kind) {   // compressor soft knee, limiter zero attack, limiter with attack
+                P p;
+                p.kv("proc", kind == 0 ? "compressor" : kind == 1 ? "limiter" : "limiter_att").kv("samples", NSTR).kv("frame", frame);
+                if (!ctx.take("stream", p)) continue;
+                if (sx.empty()) sx = stream_letter(NSTR);
+                if (kind == 0) {
+                    Compressor c(48000, -20, 4, 6, 0.005, 0.05);
+                    dyn_stream(ctx, "Compressor.process", c, false, -20, 4, 6, 48000, 0.005, 0.05, frame, sx);
+                } else if (kind == 1) {
+                    Limiter l(48000, -10, 3, 0, 0.1);
+                    dyn_stream(ctx, "Limiter.process", l, true, -10, 1, 3, 48000, 0, 0.1, frame, sx);
+                } else {
+                    Limiter l(8000, -30, 0, 0.002, 0.3);
+                    dyn_stream(ctx, "Limiter.process", l, true, -30, 1, 0, 8000, 0.002, 0.3, frame, sx);
+                }
+            }
+            if (ctx.take("stream", P().kv("proc", "gate").kv("samples", NSTR).kv("frame", frame))) gate_stream(ctx, frame, NSTR);
+            if (ctx.take("stream", P().kv("proc", "agc_real").kv("samples", NSTR).kv("frame", frame))) agc_stream<real_t>(ctx, frame, NSTR);
+            if (ctx.take("stream", P().kv("proc", "agc_cmplx").kv("samples", NSTR).kv("frame", frame))) agc_stream<cmplx_t>(ctx, frame, NSTR);
+        }
+    }
+
+    // ---- NoiseGate: bursts shorter than the release time with hold > 0, every sample against the reference recursion
+    {
+        const std::vector<double> thrs = TH ? std::vector<double>{-140, -80, -40, -20, 0} : std::vector<double>{-40, 0};
+        const std::vector<double> tas = TH ? std::vector<double>{0, 1e-4, 1e-3, 0.01, 0.05} : std::vector<double>{0, 1e-3, 0.01};
+        const std::vector<double> trs = TH ? std::vector<double>{1e-3, 0.01, 0.05, 0.2} : std::vector<double>{0.01, 0.05};
+        const std::vector<double> ths = TH ? std::vector<double>{1e-4, 1e-3, 0.01, 0.05, 0.2} : std::vector<double>{1e-3, 0.01, 0.05};
+        for (double thr : thrs)
+            for (int fs : FSs)
+                for (double ta : tas)
+                    for (double tr : trs)
+                        for (double th : ths)
+                            for (double bf : {0.0, 0.1, 0.5, 0.9}) {
+                                if (!ctx.take("gate.bursts", P().kv("thr", thr).kv("fs", fs).kv("att", ta).kv("rel", tr).kv("hold", th).kv("burst_rel", bf))) continue;
+                                gate_bursts(ctx, fs, thr, ta, tr, th, bf);
+                            }
+    }
 
     // ---- static law, attack = release = 0
     for (int kind = 0; kind < 2; ++kind)   // 0 compressor, 1 limiter
-        for (double T : Ts)
-            for (int R : Rs) {
+        for (double T : TsD)
+            for (int R : RsD) {
                 if (kind == 1 && R != 1) continue;
-                for (double W : Ws)
+                for (double W : WsD)
                     for (int fs : FSs)
                         for (int sign : {1, -1}) {
                             P p;
@@ -825,11 +1114,11 @@ int main(int argc, char** argv) {
                             if (!ctx.take("static.curve", p)) continue;
                             if (kind == 0) {
                                 Compressor c(fs, T, R, W, 0, 0);
-                                static_curve(ctx, "Compressor.process", c, false, T, R, W, sign);
+                                static_curve(ctx, "Compressor.process", c, false, T, R, W, sign, TH);
                                 ctx.note(fmt("static compressor R=%d W%s0", R, W > 0 ? ">" : "="));
                             } else {
                                 Limiter l(fs, T, W, 0, 0);
-                                static_curve(ctx, "Limiter.process", l, true, T, 1, W, sign);
+                                static_curve(ctx, "Limiter.process", l, true, T, 1, W, sign, TH);
                                 ctx.note(fmt("static limiter W%s0", W > 0 ? ">" : "="));
                             }
                         }
@@ -837,8 +1126,8 @@ int main(int argc, char** argv) {
 
     // ---- exact breakpoints: samples whose computed level equals T, T-W/2, T+W/2 bit-exactly (zero attack; release 0 and 0.2 s)
     for (int kind = 0; kind < 3; ++kind)   // 0 compressor R=1, 1 compressor R=5, 2 limiter
-        for (double T : Ts)
-            for (double W : Ws)
+        for (double T : TsD)
+            for (double W : WsD)
                 for (double tr : {0.0, 0.2}) {
                     P p;
                     p.kv("kind", kind == 2 ? "limiter" : "compressor").kv("T", T);
@@ -855,7 +1144,7 @@ int main(int argc, char** argv) {
                 }
 
     // ---- gain range / ceiling on signal letters, all attack x release combinations
-    const double TAR[] = {0, 1e-3, 0.2, 4};
+    const std::vector<double> TAR = TH ? std::vector<double>{0, 1e-4, 1e-3, 0.2, 4} : std::vector<double>{0, 1e-3, 0.2, 4};
     const int NS = TH ? 100000 : 10000;
     std::vector<std::vector<double>> lets(NLET);
     for (int kind = 0; kind < 2; ++kind)
@@ -906,12 +1195,16 @@ int main(int argc, char** argv) {
 
     // ---- smoothing: level steps up and down
     {
-        const double TT[] = {0, 1e-3, 0.01, 0.2, 4};
+        const std::vector<double> TT = TH ? std::vector<double>{0, 1e-4, 1e-3, 0.01, 0.2, 4} : std::vector<double>{0, 1e-3, 0.01, 0.2, 4};
+        const std::vector<double> sT = TH ? std::vector<double>{-40, -30, -20, -10, -3} : std::vector<double>{-30, -10};
+        const std::vector<int> sR = TH ? std::vector<int>{2, 3, 5, 10, 50} : std::vector<int>{2, 5, 50};
+        const std::vector<double> sW = TH ? std::vector<double>{0, 3, 10, 20} : std::vector<double>{0, 10};
+        auto core = [](double T, int R, double W) { return (T == -30 || T == -10) && (R == 2 || R == 5 || R == 50) && (W == 0 || W == 10); };
         for (int kind = 0; kind < 2; ++kind)
-            for (double T : {-30.0, -10.0})
-                for (int R : {2, 5, 50}) {
+            for (double T : sT)
+                for (int R : sR) {
                     if (kind == 1 && R != 2) continue;
-                    for (double W : {0.0, 10.0})
+                    for (double W : sW)
                         for (int fs : FSs)
                             for (int frac = 0; frac < 6; ++frac) {
                                 // small fractional fs*t (attack = release): a time rounded to whole samples is visible in the decay ratio
@@ -924,17 +1217,19 @@ int main(int argc, char** argv) {
                                 if (!ctx.take("smooth.step", p)) continue;
                                 if (kind == 0) {
                                     Compressor c(fs, T, R, W, t, t);
-                                    smooth_step(ctx, "Compressor.process", c, false, T, R, W, fs, t, t);
+                                    smooth_step(ctx, "Compressor.process", c, false, T, R, W, fs, t, t, TH);
                                 } else {
                                     Limiter l(fs, T, W, t, t);
-                                    smooth_step(ctx, "Limiter.process", l, true, T, 1, W, fs, t, t);
+                                    smooth_step(ctx, "Limiter.process", l, true, T, 1, W, fs, t, t, TH);
                                 }
                             }
-                    for (double W : {0.0, 10.0})
+                    for (double W : sW)
                         for (int fs : FSs)
                             for (double ta : TT)
                                 for (double tr : TT) {
                                     if (!TH && fs == 192000 && (ta > 0.2 || tr > 0.2)) continue;   // quick: no 4 s at 192 kHz
+                                    // thorough: 4 s time constants above 8 kHz only on the core configurations (cost)
+                                    if (TH && fs > 8000 && (ta > 0.2 || tr > 0.2) && !core(T, R, W)) continue;
                                     P p;
                                     p.kv("kind", kind ? "limiter" : "compressor").kv("T", T);
                                     if (!kind) p.kv("R", R);
@@ -942,24 +1237,30 @@ int main(int argc, char** argv) {
                                     if (!ctx.take("smooth.step", p)) continue;
                                     if (kind == 0) {
                                         Compressor c(fs, T, R, W, ta, tr);
-                                        smooth_step(ctx, "Compressor.process", c, false, T, R, W, fs, ta, tr);
+                                        smooth_step(ctx, "Compressor.process", c, false, T, R, W, fs, ta, tr, TH);
                                     } else {
                                         Limiter l(fs, T, W, ta, tr);
-                                        smooth_step(ctx, "Limiter.process", l, true, T, 1, W, fs, ta, tr);
+                                        smooth_step(ctx, "Limiter.process", l, true, T, 1, W, fs, ta, tr, TH);
                                     }
                                 }
                 }
     }
 
     // ---- smoothing through digital silence: burst | exact zeros for k release times | quiet tone; one call and three calls
+    const std::vector<double> zT = TH ? std::vector<double>{-40, -30, -20, -10} : std::vector<double>{-30, -10};
+    const std::vector<int> zR = TH ? std::vector<int>{2, 5, 10, 50} : std::vector<int>{2, 5, 50};
+    const std::vector<double> zW = TH ? std::vector<double>{0, 3, 10} : std::vector<double>{0, 10};
+    const std::vector<int> zF = TH ? std::vector<int>{8000, 44100, 192000} : std::vector<int>{8000, 192000};
+    const std::vector<double> zA = TH ? std::vector<double>{0, 1e-3, 0.01} : std::vector<double>{0, 0.01};
+    const std::vector<double> zRl = TH ? std::vector<double>{1e-3, 0.01, 0.05, 0.2} : std::vector<double>{1e-3, 0.01, 0.2};
     for (int kind = 0; kind < 2; ++kind)
-        for (double T : {-30.0, -10.0})
-            for (int R : {2, 5, 50}) {
+        for (double T : zT)
+            for (int R : zR) {
                 if (kind == 1 && R != 2) continue;
-                for (double W : {0.0, 10.0})
-                    for (int fs : {8000, 192000})
-                        for (double ta : {0.0, 0.01})
-                            for (double tr : {1e-3, 0.01, 0.2})
+                for (double W : zW)
+                    for (int fs : zF)
+                        for (double ta : zA)
+                            for (double tr : zRl)
                                 for (int k : {1, 5, 50})
                                     for (int calls : {1, 3}) {
                                         P p;
@@ -976,11 +1277,15 @@ int main(int argc, char** argv) {
                                         }
                                     }
             }
-    for (double thr : {-40.0, 0.0})
-        for (int fs : {8000, 192000})
-            for (double ta : {1e-3, 0.05})
-                for (double tr : {0.0, 1e-3})
-                    for (double th : {0.0, 1e-3, 0.05})
+    const std::vector<double> gsT = TH ? std::vector<double>{-140, -80, -40, -20, 0} : std::vector<double>{-40, 0};
+    const std::vector<double> gsA = TH ? std::vector<double>{1e-4, 1e-3, 0.01, 0.05} : std::vector<double>{1e-3, 0.05};
+    const std::vector<double> gsR = TH ? std::vector<double>{0, 1e-3, 0.01} : std::vector<double>{0, 1e-3};
+    const std::vector<double> gsH = TH ? std::vector<double>{0, 1e-4, 1e-3, 0.05, 0.5} : std::vector<double>{0, 1e-3, 0.05};
+    for (double thr : gsT)
+        for (int fs : zF)
+            for (double ta : gsA)
+                for (double tr : gsR)
+                    for (double th : gsH)
                         for (int k : {1, 5, 50})
                             for (int calls : {1, 3}) {
                                 if (!ctx.take("gate.silence", P().kv("thr", thr).kv("fs", fs).kv("att", ta).kv("rel", tr).kv("hold", th).kv("k", k).kv("calls", calls))) continue;
@@ -998,8 +1303,9 @@ int main(int argc, char** argv) {
 
     // ---- NoiseGate
     {
-        const double GT[] = {0, 1e-3, 0.05};
-        for (double thr : {-140.0, -40.0, 0.0})
+        const std::vector<double> GT = TH ? std::vector<double>{0, 1e-4, 1e-3, 0.01, 0.05, 0.5} : std::vector<double>{0, 1e-3, 0.05};
+        const std::vector<double> gT = TH ? std::vector<double>{-140, -80, -40, -20, 0} : std::vector<double>{-140, -40, 0};
+        for (double thr : gT)
             for (int fs : FSs)
                 for (double ta : GT)
                     for (double tr : GT)
@@ -1022,12 +1328,15 @@ int main(int argc, char** argv) {
             double r, f;
         };
         const TT steps[] = {{0.01, 0.01}, {0.1, 0.002}};
-        for (double target : {0.01, 1.0, 100.0})
+        const std::vector<double> aT = TH ? std::vector<double>{0.001, 0.01, 0.1, 1.0, 10.0, 100.0} : std::vector<double>{0.01, 1.0, 100.0};
+        const std::vector<int> aA = TH ? std::vector<int>{1, 2, 10, 100, 1000, 5000} : std::vector<int>{1, 10, 100, 1000};
+        const std::vector<double> aM = TH ? std::vector<double>{6, 20, 60, 140} : std::vector<double>{20, 60, 140};
+        for (double target : aT)
             // absolute input amplitude 1e-5 .. 10 (-100 .. +20 dBFS); max_gain 140 dB keeps the required gain
             // (<= 120 dB for target 100 at -100 dBFS) below max_gain for every (target, amplitude) pair
             for (int lv = -100; lv <= 20; lv += (TH ? 5 : 10))
-                for (int avg : {1, 10, 100, 1000})
-                    for (double maxg : {20.0, 60.0, 140.0})
+                for (int avg : aA)
+                    for (double maxg : aM)
                         for (int let = 0; let < 3; ++let)
                             for (int st = 0; st < (TH ? 2 : 1); ++st) {
                                 if (!ctx.take("agc.settle", P().kv("target", target).kv("level_db", lv).kv("avg", avg).kv("max_gain", maxg)
@@ -1036,9 +1345,9 @@ int main(int argc, char** argv) {
                                     continue;
                                 agc_settle(ctx, target, lv, avg, maxg, let, steps[st].r, steps[st].f, NSET);
                             }
-        for (double target : {0.01, 1.0, 100.0})
+        for (double target : aT)
             for (int avg : {1, 2, 3, 7, 10, 100, 1000})
-                for (double maxg : {20.0, 60.0})
+                for (double maxg : aM)
                     for (int let = 0; let < 4; ++let) {
                         if (!ctx.take("agc.bound", P().kv("target", target).kv("avg", avg).kv("max_gain", maxg).kv("letter", AGC_LET[let]))) continue;
                         agc_bound_case(ctx, target, avg, maxg, let, NSET);
